@@ -17,6 +17,8 @@ import (
 
 	"pgregory.net/rapid"
 
+	dragonboat "github.com/lni/dragonboat/v4"
+
 	"github.com/lni/dragonboat/v4/internal/fileutil"
 	"github.com/lni/dragonboat/v4/internal/rsm"
 	"github.com/lni/dragonboat/v4/internal/server"
@@ -46,6 +48,7 @@ type c16Plan struct {
 	SecondCrash bool
 	SaveDelayMs int
 	PreVote     bool // an isolated replica does not inflate its term: the snapshot arrives in the term it already voted in
+	Exports     bool // snapshots are exported (to a user directory, not recorded in the log store) while the workload runs
 }
 
 var c16Events = []string{"sm-save-enter", "sm-save-exit", "sm-recover-enter", "sm-recover-exit", "logdb-snapshot-record-before",
@@ -174,6 +177,7 @@ func TestVF_C16_Cluster(t *testing.T) {
 			Pad:         []int{0, 3000, 70000, 300000}[vfhelp.Pick(t, "pad", 2)],
 			SecondCrash: vfhelp.Pick(t, "second", 2) == 0,
 			PreVote:     vfhelp.Pick(t, "prevote", 1) == 1,
+			Exports:     vfhelp.Pick(t, "exports", 1) == 1,
 		}
 		if vfhelp.Pick(t, "savedelay", 1) == 1 {
 			// a slow log store on every host: the step worker's SaveRaftState lags behind
@@ -420,6 +424,30 @@ func runC16(t *rapid.T, st *vfhelp.Stats, p c16Plan) ([]string, bool, interface{
 		atomic.StoreInt32(&lagging, 0)
 		c.Net.HealAll()
 		labels = append(labels, "victim-lagged")
+	}
+	if p.Exports {
+		labels = append(labels, "exports")
+		wg.Add(1)
+		go func() {
+			defer wg.Done()
+			for n := 0; n < 6; n++ {
+				select {
+				case <-stop:
+					return
+				case <-time.After(20 * time.Millisecond):
+				}
+				hostMu.RLock()
+				h := c.Hosts[n%3]
+				if h.Up {
+					dir := fmt.Sprintf("/export-%d", n)
+					_ = h.FS.MkdirAll(dir, 0o755)
+					if rs, err := h.NH.RequestSnapshot(shardID, dragonboat.SnapshotOption{Exported: true, ExportPath: dir}, time.Second); err == nil {
+						go func() { <-rs.ResultC(); rs.Release() }()
+					}
+				}
+				hostMu.RUnlock()
+			}
+		}()
 	}
 	doneC := make(chan struct{})
 	go func() { wg.Wait(); close(doneC) }()
